@@ -158,7 +158,11 @@ class World:
             _, n, w, fmt = op
             img = content(self.cseed, n, shape_of(self.size, fmt)).copy()
             self.bases[n] = img.copy()
-            if not w: img.flags.writeable = False
+            if not w:
+                # read-only arrays come in two kinds: an array that owns its data, frozen; and (every other one) a read-only VIEW into a foreign buffer,
+                # np.frombuffer(message).reshape(...) - what MQ.topicmsgs2frames builds raw frames from (ndarray.base is an ndarray)
+                if n % 2: img = _np.frombuffer(img.tobytes(), _np.uint8).reshape(img.shape)
+                else: img.flags.writeable = False
             res = F(img, {'k': n}, None if fmt == 'GRAY' and n % 2 else fmt)
         elif k == 'fromJpg':
             _, n, fmt, dims = op
